@@ -67,10 +67,10 @@ CHECKS = {
         level_text="Generated patterns rich in the characters the three splitting stages use, both flags, context values and output modes are sent through the real dgrep binary serverless and over SSH; the selected lines and the output mode must equal what the user's pattern selects directly. In-process round trips cover the full integer range of the options.",
         level_note="Patterns are bounded at 1 KiB (a command larger than one 32 KiB client read is cut by the client handler; stated bound). Lines avoid byte 0xAC and, in plain mode, a leading '.' (open findings of C01).",
         tests=[
-            dict(name="TestC12Serverless", quick=dict(checks=900, timeout=600), thorough=dict(checks=5000, shards=8, timeout=3000)),
-            dict(name="TestC12SSH", quick=dict(checks=250, timeout=600), thorough=dict(checks=2000, shards=4, timeout=3000)),
-            dict(name="TestC12RoundTrip", quick=dict(checks=50000, timeout=600), thorough=dict(checks=500000, shards=4, timeout=3000)),
-            dict(name="TestC12MaprSession", quick=dict(checks=40, timeout=600), thorough=dict(checks=400, shards=4, timeout=3000)),
+            dict(name="TestC12Serverless", quick=dict(checks=900, timeout=600), thorough=dict(checks=30000, shards=8, timeout=3400)),
+            dict(name="TestC12SSH", quick=dict(checks=250, timeout=600), thorough=dict(checks=12000, shards=4, timeout=3400)),
+            dict(name="TestC12RoundTrip", quick=dict(checks=50000, timeout=600), thorough=dict(checks=3000000, shards=2, timeout=3400)),
+            dict(name="TestC12MaprSession", quick=dict(checks=40, timeout=600), thorough=dict(checks=2500, shards=2, timeout=3400)),
         ]),
     "C08": dict(
         pkg="c08", level="exploration", bins=["dcat"],
@@ -115,7 +115,7 @@ CHECKS = {
         level_text="Each generated history runs against a fresh server with a small MaxConnections; the harness is the SSH client and ends connections gracefully or with a TCP reset. After every step the count the server reports must equal the model, a login must be accepted exactly when a slot is free, a burst may never establish more sessions than free slots, and finally every slot must be given back.",
         level_note="The reported count is read from the MAPREDUCE:STATS lines the server logs on every change (polled up to 5 s). During a burst only the upper bound and progress are asserted.",
         tests=[
-            dict(name="TestC14History", quick=dict(checks=250, shards=6, timeout=900), thorough=dict(checks=500, shards=12, timeout=3400)),
+            dict(name="TestC14History", quick=dict(checks=250, shards=6, timeout=900), thorough=dict(checks=5000, shards=14, timeout=3400)),
         ]),
     "C13": dict(
         pkg="c13", level="exploration",
